@@ -155,7 +155,21 @@ class LocalCapture:
         self.o1 = _fvutils.scalar_tensor_vector_prod
         self.o2 = pp.matrix_operations.diagonal_scaling_matrix
         self.o3 = pp.Mpfa._create_bound_rhs
+        self.o4 = pp.matrix_operations.invert_diagonal_blocks
+        self.max_cond = 0.0
         cap = self
+
+        def w4(mat, s, method=None):
+            # conditioning of the (row-scaled) local systems the code inverts
+            M = sps.csr_matrix(mat)
+            off = np.r_[0, np.cumsum(s)]
+            for i in range(len(s)):
+                blk = M[off[i]:off[i + 1], off[i]:off[i + 1]].toarray()
+                cnd = float(np.linalg.cond(blk)) if blk.size else 0.0
+                cap.max_cond = max(cap.max_cond, cnd if np.isfinite(cnd) else 1e300)
+            return cap.o4(mat, s, method=method)
+
+        pp.matrix_operations.invert_diagonal_blocks = w4
 
         def w1(sd, k, st):
             cap.calls += 1
@@ -182,6 +196,7 @@ class LocalCapture:
         self.fv.scalar_tensor_vector_prod = self.o1
         pp.matrix_operations.diagonal_scaling_matrix = self.o2
         pp.Mpfa._create_bound_rhs = self.o3
+        pp.matrix_operations.invert_diagonal_blocks = self.o4
 
     def local_systems(self, max_nnz=1500):
         """The captured local equations A g = RC p_cells + RB bdata_faces, or None."""
@@ -357,7 +372,7 @@ class C11(Prop):
             s = int(cf[f].data[0])
             kinds[f] = s * (1 if bc.is_dir[f] else 2)
         return {"dim": int(g.dim), "nf": int(g.num_faces), "nc": int(g.num_cells),
-                "kinds": kinds, "local": local,
+                "kinds": kinds, "local": local, "max_cond": cap.max_cond,
                 "flux": canon(md[discr.flux_matrix_key]),
                 "bound_flux": canon(md[discr.bound_flux_matrix_key]),
                 "bpc": canon(md[discr.bound_pressure_cell_matrix_key], bfaces),
@@ -447,6 +462,9 @@ class C11(Prop):
         return not res.get("error") and res["nc"] >= 2 and any(any(f[:3]) for f in case["fields"])
 
     def finding_key(self, case, res, why):
+        if res is not None and res.get("max_cond", 0) > 1e10:
+            # a local system is singular up to rounding and the inverter did not raise
+            return "singular-local-system"
         if why.startswith("constant pressure"):
             return "constant-not-zero"
         if "boundary pressure" in why:
